@@ -57,6 +57,7 @@ def ant_class():
                 super().clear(reset_noise=reset_noise)
                 self._hit = False
                 self._mc = False
+                self.last_reset = reset_noise
         _ant_cls = FlagAntenna
     return _ant_cls
 
@@ -398,9 +399,34 @@ def canon_log(s):
 def correspondence(run):
     n = run.scale(250, 4000)
     reqs, expect, descs = [], [], []
+    def targeted_above(st):
+        """every combination form with an antenna above the surface in the non-detector operand"""
+        up = ("A", _next(st, "id"), False, False, True)
+        ok_ant = gen_ant(run, st)
+        bad = run.rng.choice([("T", up), ("T", ("L", [ok_ant, up])), ("T", ("L", [up]))])
+        st["p_above"] = 0.0
+        det = ("T", gen_tree(run, st, 2, need_det=True))
+        comb = ("T", ("C", [gen_tree(run, st, 1, need_det=True) for _ in range(run.rng.randint(1, 2))]))
+        form = run.rng.choice(["I", "P", "Pr", "Pc", "S", "II"])
+        if form == "I":
+            return ("I", comb, bad)
+        if form == "P":
+            return ("P", det, bad)
+        if form == "Pr":
+            return ("P", bad, run.rng.choice([det, comb]))
+        if form == "Pc":
+            return ("P", comb, bad)
+        if form == "S":
+            return ("S", [det, bad])
+        return ("I", ("I", comb, det), bad)
+
     for i in range(n):
         st = {"id": 0, "tag": 0, "p_above": run.rng.choice([0.0, 0.0, 0.0, 0.08])}
-        e = gen_expr(run, st, run.rng.randint(0, 3))
+        if i % 8 == 7:
+            e = targeted_above(st)
+            run.count("targeted_above_surface")
+        else:
+            e = gen_expr(run, st, run.rng.randint(0, 3))
         et = etoks(e)
         obj = py_eval(e)
         run.count("expr_" + e[0])
@@ -670,7 +696,11 @@ def search(run, deep):
             obj.triggered(require_mc_truth=True, **{k: 1 for k in kws})
         except TypeError:
             pass
-        obj.clear()
+        flag = run.rng.random() < 0.5
+        obj.clear(reset_noise=flag)
+        if any(getattr(x, "last_reset", None) is not flag for x in obj):
+            run.fail_input("clear", {"a": etoks(a), "b": etoks(b), "c": etoks(c), "reset_noise": flag},
+                           what="clear(reset_noise=%s) did not reach every antenna with that argument" % flag)
         try:
             still = obj.triggered()
         except TypeError:   # a custom sub-detector that does not take require_mc_truth
@@ -708,6 +738,10 @@ def consistent(obj):
     try:
         if [obj[i].aid for i in range(len(exp))] != exp or (exp and obj[-1].aid != exp[-1]):
             return "indexing disagrees with iteration"
+        n = len(exp)
+        for sl in (slice(None), slice(1, None), slice(None, -1), slice(None, None, 2), slice(n, 0, -1), slice(-2, None)):
+            if [a.aid for a in obj[sl]] != exp[sl]:
+                return "slice %s disagrees with iteration" % (sl,)
     except IndexError:
         return "indexing raises inside range(len)"
     return None
